@@ -17,6 +17,9 @@ SITES = {
     "StoredTagsNormalised": "normalizeTags",
     "RejectedChangesNothing": "Topic.replySetTags",
     "ActiveOnlyForNonRoot": "Topic.replyGetSub/fnd",
+    "TopicTagCacheMatchesStore": "Topic.replyDelCred/tag-cache",
+    "HonestSetAccepted": "Topic.replySetTags/tag-cache",
+    "DelCredRemovesItsTag": "deleteCred",
 }
 
 
@@ -64,7 +67,12 @@ def run(ctx):
         with open(os.path.join(ctx.specdir, "QueryParse_%s.cfg" % name), "w") as fh:
             fh.write(parse_cfg(alpha, maxlen, cfgs, invs))
     tagcfg = open(os.path.join(ctx.specdir, "QueryTags.cfg")).read()
-    witnesses = ["NeverDeniedSearch", "NeverMaskedSearchAllowed", "NeverSetDenied", "NeverSetOkWithImmutable"]
+    if not thorough:
+        tagcfg = tagcfg.replace("Small = FALSE", "Small = TRUE")
+        with open(os.path.join(ctx.specdir, "QueryTags.cfg"), "w") as fh:
+            fh.write(tagcfg)
+    witnesses = ["NeverDeniedSearch", "NeverMaskedSearchAllowed", "NeverSetDenied", "NeverSetOkWithImmutable",
+                 "NeverDelCredRemovesTag", "NeverDelCredOfLastTag", "NeverReaddAttempt"]
     for wname in witnesses:
         with open(os.path.join(ctx.specdir, "QueryTags_%s.cfg" % wname), "w") as fh:
             fh.write("\n".join(l for l in tagcfg.splitlines() if not l.startswith(("INVARIANTS", "PROPERTIES")))
@@ -78,7 +86,7 @@ def run(ctx):
            "VERIF_C19_L1": 5 if thorough else 4, "VERIF_C19_L4": 8 if thorough else 6, "VERIF_C19_L2": 5 if thorough else 4,
            "VERIF_C19_L3STRIDE": 1 if thorough else 5, "VERIF_C19_L3RAND": 4000 if thorough else 500,
            "VERIF_C19_RAND": 20000 if thorough else 2000, "VERIF_C19_TAGSTRIDE": 1 if thorough else 3,
-           "VERIF_C19_WALKS": 200 if thorough else 30}
+           "VERIF_C19_WALKS": 200 if thorough else 30, "VERIF_C19_HWALKS": 400 if thorough else 40}
     if os.environ.get("VERIF_C19_SELFTEST"):
         env["VERIF_C19_SELFTEST"] = os.environ["VERIF_C19_SELFTEST"]
 
@@ -87,21 +95,23 @@ def run(ctx):
         return name, ctx.tlc_must_pass("QueryParse", "QueryParse_%s.cfg" % name, workers=workers, timeout=1500)
 
     def u1_tags(_):
-        res = [("Tags", ctx.tlc_must_pass("QueryTags", "QueryTags.cfg", workers=4, timeout=900))]
+        res = [("Tags", ctx.tlc_must_pass("QueryTags", "QueryTags.cfg", workers=6, timeout=900))]
         if thorough:
-            res.append(("Tags3", ctx.tlc_must_pass("QueryTags", "QueryTags_3.cfg", workers=4, timeout=900)))
-        for wname in witnesses:
-            r = ctx.tlc("QueryTags", "QueryTags_%s.cfg" % wname, workers=2, timeout=600)
-            if wname not in r.violated_invariants:
-                raise vlib.Infra("vacuity: the model never reaches a state refuting %s (%s)" % (wname, r.error))
+            res.append(("Tags3", ctx.tlc_must_pass("QueryTags", "QueryTags_3.cfg", workers=6, timeout=900)))
         return res
+
+    def u1_witness(wname):
+        r = ctx.tlc("QueryTags", "QueryTags_%s.cfg" % wname, workers=2, timeout=600)
+        if wname not in r.violated_invariants:
+            raise vlib.Infra("vacuity: the model never reaches a state refuting %s (%s)" % (wname, r.error))
+        return []
 
     def record(_):
         return ctx.go_test_must_run("./", "^TestVerifC19Record$", env=env, timeout=1500)
 
     results = {}
-    with concurrent.futures.ThreadPoolExecutor(max_workers=6) as ex:
-        futs = [ex.submit(u1_parse, it) for it in u1] + [ex.submit(u1_tags, None)]
+    with concurrent.futures.ThreadPoolExecutor(max_workers=9) as ex:
+        futs = [ex.submit(u1_parse, it) for it in u1] + [ex.submit(u1_tags, None)] + [ex.submit(u1_witness, w) for w in witnesses]
         frec = ex.submit(record, None)
         for f in futs:
             r = f.result()
@@ -131,7 +141,10 @@ def run(ctx):
         for m in mons:
             name, _, cls = m.partition(":")
             classes[(v["op"], m)] += 1
-            ctx.fail(name, brief(v), site=SITES.get(name, "?"), input_class=cls, op=v["op"],
+            site = SITES.get(name, "?")
+            if cls == "stale_topic_tag_cache":
+                site = "Topic.replyDelCred/tag-cache"
+            ctx.fail(name, brief(v), site=site, input_class=cls, op=v["op"],
                      input=S(v["q"]) if "q" in v else "")
     for k, what in divs:
         ctx.divergences.append({"vector": brief(vectors[k - 1]), "what": what})
@@ -143,7 +156,8 @@ def run(ctx):
     evals = sum(len(v["res"]) if v["op"] == "parse" else 1 for v in vectors)
     nontriv = sum(1 for v in vectors if (v["op"] == "parse" and any(r["err"] or r["req"] or r["opt"] for r in v["res"]))
                   or (v["op"] == "normalize" and v["raw"]) or (v["op"] == "restricted" and (v["fold"] or v["fnew"] or not v["eq"]))
-                  or (v["op"] == "settags" and (v["code"] != 304)) or (v["op"] == "fnd" and v["q"]))
+                  or (v["op"] == "settags" and (v["code"] != 304)) or (v["op"] == "fnd" and v["q"])
+                  or (v["op"] == "hist" and (v["storedPre"] != v["storedPost"] or v["code"] >= 400)))
     ctx.cov.update({
         "states": sum(t.distinct for t in results.values()) + r2.distinct,
         "transitions": sum(t.generated for t in results.values()) + r2.generated,
@@ -153,7 +167,8 @@ def run(ctx):
                 "{rest,email} as immutable/masked. Real code: parseSearchQuery on every string of the same alphabets up to length %d/%d/%d, "
                 "term-vocabulary queries (all pairs%s, seeded longer ones) under all 16 configurations, seeded random strings; normalizeTags on all "
                 "lists of <=2 (sampled 3) of 20 raw tags; restrictedTagsEqual/filterRestrictedTags on all pairs of <=2-subsets of 9 tags x 4 namespace sets; "
-                "replySetTags single steps and seeded walks; fnd handler on 7 tag sets x 17 queries x 4 masked sets x 3 levels x public/private x e-mail indexing"
+                "replySetTags single steps and seeded walks; histories on a live me topic through the real handleMeta ({set tags}, {del what=cred}, "
+                "server-side credential tags): 216 scripted 'credential tag -> del cred -> set tags' histories + seeded walks, stored and cached tags after every step; fnd handler on 7 tag sets x 17 queries x 4 masked sets x 3 levels x public/private x e-mail indexing"
                 % (u1[0][2], u1[1][2], u1[2][2], env["VERIF_C19_L1"], env["VERIF_C19_L4"], env["VERIF_C19_L2"], "" if thorough else " every 5th"),
         "per_op": dict(ops), "per_domain": dict(doms), "exhaustive": bool(thorough),
         "model": {name: {"generated": t.generated, "distinct": t.distinct, "wall_s": round(t.wall, 1)} for name, t in results.items()},
@@ -166,7 +181,9 @@ def run(ctx):
         "characters outside the modelled universe (ASCII letters/digits, e-acute, SP, TAB, and , \" : @ . _ + - % ' ! ? #) behave like their class",
         "account / topic creation (user.go:72, init_topic.go:573) applies the same two calls normalizeTags + restrictedTagsEqual(tags, nil, immutable) "
         "that are recorded at function level; the creating handlers themselves are not driven",
-        "server-side additions of credential tags go through store.Users.UpdateTags (adapter), simulated in the walks by inserting the tag",
+        "server-side additions of credential tags ({set cred} with a valid response) are simulated: the store adds the tag and the topic takes the "
+        "returned list as replySetCred does (topic.go:2951); {del what=cred} and {set tags} go through the real Topic.handleMeta",
+        "the recording store mirrors the SQL adapters' UserUpdateTags (and the reference adapter memadp): an empty tag list is returned as a nil slice",
     ]
     samples = [brief(vectors[i]) for i in (0, 3000, len(vectors) // 2, len(vectors) - 1) if i < len(vectors)]
     return ctx.finish(level="model_checking", samples=samples)
